@@ -271,6 +271,17 @@ func runDecodex(ctx *core.Ctx, tier string) {
 	for _, k := range kinds {
 		base := baseOp(k)
 		add(opText(base, -1))
+		// JSON whitespace (all four kinds) around and inside an accepted patch; other blanks must be rejected
+		bt := opText(base, -1)
+		for _, ws := range []string{" ", "\t", "\n", "\r", "\r\n \t"} {
+			texts[ws+"["+bt+"]"] = true
+			texts["["+bt+"]"+ws] = true
+			texts["["+ws+bt+ws+"]"] = true
+		}
+		for _, ws := range []string{"\f", "\v", "\xc2\xa0", "\x00"} {
+			texts[ws+"["+bt+"]"] = true
+			texts["["+bt+"]"+ws] = true
+		}
 		for i := range slotNames {
 			add(opText(base, i)) // identical duplicate
 			for _, si := range slotMenu(slotNames[i]) {
